@@ -153,7 +153,7 @@ func (p *Parser) ParseReader(r io.Reader, args ...any) (data Node, err error) {
 		eof = true
 	}
 	// A short first read must not hide a BOM: read on until it can be told.
-	for !eof && 0 < cnt && cnt < 4 && buf[0] == 0xEF {
+	for !eof && cnt < 4 && (cnt == 0 || buf[0] == 0xEF) {
 		var n int
 		n, err = r.Read(buf[cnt:cap(buf)])
 		cnt += n
